@@ -196,6 +196,18 @@ class Net(object):
         return b"".join(self.pipe(direction).writes)
 
 
+def idle_in_poll(thread, stream):
+    """state, not time: `thread` is parked in stream.poll() and the stream's receive buffer is empty - everything that was
+    sent to it has been consumed and it is waiting for more input"""
+    import sys
+    fr = sys._current_frames().get(thread.ident)
+    while fr is not None:
+        if fr.f_code is MemStream.poll.__code__ and fr.f_locals.get("self") is stream:
+            return len(stream.rx.buf) == 0
+        fr = fr.f_back
+    return False
+
+
 class MemStream(Stream):
     __slots__ = ("net", "side", "rx", "tx", "_closed", "ncalls")
     MAX_IO_CHUNK = 64000
@@ -337,10 +349,11 @@ class ServedPair(object):
     """A drives; B is served by a daemon thread running the real serve_all() (started before A connects,
     so A's service may talk to B from on_connect, as MasterService does)"""
 
-    def __init__(self, svc_a, svc_b, cfg_a=None, cfg_b=None, fault=None, compress=True, epipe=False, hard_limit=20.0):
+    def __init__(self, svc_a, svc_b, cfg_a=None, cfg_b=None, fault=None, compress=True, epipe=False, hard_limit=20.0, cfg_b_as_is=False):
         from rpyc.core.channel import Channel
         self.net = Net(waiter=ThreadWaiter(hard_limit), fault=fault, epipe=epipe)
-        self.b = svc_b._connect(Channel(self.net.b, compress), dict(cfg_b or {}))
+        # cfg_b_as_is: hand the caller's own dict object to the connection (applications reuse and edit one dict)
+        self.b = svc_b._connect(Channel(self.net.b, compress), cfg_b if cfg_b_as_is else dict(cfg_b or {}))
         self.server_exc = None
         self.thread = threading.Thread(target=self._serve, daemon=True, name="rv-server-B")
         self.thread.start()
